@@ -210,6 +210,8 @@ def generic(s):
         base, scope = s.split('%', 1)
         if PLAIN_SCOPE.match(scope):
             v6 = 'A' if (std_v6(base) and 1 <= len(scope) <= 15) else 'R'
+        elif '%' in scope:
+            v6 = 'R'                    # a second '%': the standard library rejects it, so the answer is defined
         else:
             v6 = 'D'
     c['ipv6'] = v6
@@ -901,7 +903,7 @@ DIRECTED_RAW = [
     '1.2.3.4 ', ' 1.2.3.4', '1.2.3.4\n', '1.2.3.4 x', '01.2.3.4', '1.2.3.04', '0x1.2.3.4', '010.1.1.1',
     '١.٢.٣.٤', '1.2.3.４', '::١', '１０.0.0.0/8', 'İ', 'ß', '\ud800', '\U0001f600', '1.2.3.4\udcff', '::1\ud800', '10.0.0.0/8\ud800', '::/\udc80',
     'aa:bb:cc:dd:ee:ff\ud800', '80\ud800', '0', '255', '256', '65535',
-    '65536', '-1', '%', '%eth0', '::1%', '::1%%', '%%', '1.2.3.4%eth0', '1.2.3.4/8/8', '/8', '8/', '/10.0.0.0/8',
+    '65536', '-1', '%', '%eth0', '::1%', '::1%%', '%%', '::1%a%b', 'fe80::1%eth0%1', 'fe80::1%%', '::%x%', 'fe80::1%e%th0', '1.2.3.4%eth0', '1.2.3.4/8/8', '/8', '8/', '/10.0.0.0/8',
     'localhost', 'example.com', '1.2.3.4:80', '[::1]', '[::1]:80', '::1/64\n', '10.0.0.0/8\n', '10.0.0.0/ 8',
     '10.0.0.0/+8', '10.0.0.0/255.0.0.0', '10.0.0.0/٨', 'None', 'True',
 ]
